@@ -357,6 +357,9 @@ def c16(tier: str) -> PropResult:
         "samples": rep["samples"] or [{"note": "no sample"}],
         "evaluations": rep["evaluations"], "distinct_nontrivial": rep.get("distinct", 0),
         "rule": "every wrapper stack up to MaxDepth over {count, stats, precision, cutoff(0..MaxCut)} x every call "
+                "sequence entering at the top, plus - for stacks of up to MaxDirectDepth layers - every sequence of DirectCalls "
+                "(class, entry layer) pairs with a call entering BELOW the top (a shared inner wrapper called directly); "
+                "top-entry rows: every "
                 "sequence of MaxCalls value classes {optimum, exactly-at-eps, outside}; each (stack, sequence) is replayed "
                 "on real wrapper objects in both directions and the projected state (returned value, every layer's "
                 "n_evaluations, ETA, hit_precision, base call count) is compared after every call",
@@ -393,7 +396,7 @@ def c15(tier: str) -> PropResult:
     viols += [v for v in _viol("C15", brep["violations"]) if v.clause.startswith("C15_")]
     cov["larger_populations"] = {"module": "NBCBatch.tla", "cases": nb.get("cases"), "sizes": brep.get("sizes"),
                                  "replayed_calls": brep.get("evaluations"), "sample": brep.get("sample"),
-                                 "rule": "generated populations of 8-60 individuals on a line (uniform / clustered / dense, distinct ranks or tie "
+                                 "rule": "generated populations of 8-60 (the last sixth: 64-128, few populous clusters) individuals on a line (uniform / clustered / dense, distinct ranks or tie "
                                          "groups away from the best and the cut), expected seeds computed by TLC, replayed under Pythagorean "
                                          "embeddings (all distances exact), 3 images per case, permuted order, both directions"}
     cov["traces_validated_against_impl"] += nb.get("cases") or 0
@@ -401,7 +404,7 @@ def c15(tier: str) -> PropResult:
     return PropResult(viols, cov, [
         "exact scales only (powers of two), so the oracle of TLC is exact; rows where the threshold test is an exact equality "
         "are compared only when the float arithmetic is exact (m in {1,2,4}, dyadic factor), otherwise they are run for crashes only",
-        "populations up to MaxN on a lattice; sizes up to 60 and arbitrary real coordinates are not enumerated",
+        "populations up to MaxN on a lattice; sizes up to 128 and arbitrary real coordinates are not enumerated",
     ])
 
 
